@@ -491,11 +491,21 @@ pub fn run(ctx: &Ctx) -> Result<Run, String> {
     for c in cs.iter().step_by(cs.len() / 4 + 1) {
         stats.samples.push(serde_json::to_value(c).unwrap());
     }
+    // histories on ONE long-lived authenticator whose store changes behind its back (another device
+    // synced new hmac-secret data, dropped it, rotated the key): every PRF answer must be the one a
+    // fresh authenticator over the same store gives - the secrets used are the ones stored NOW
+    {
+        use super::inst::{self, IOp};
+        let alphabet = [IOp::Get { who: 0, prf: true, silent: false }, IOp::Get { who: 0, prf: false, silent: false }, IOp::Get { who: 1, prf: true, silent: false }, IOp::Get { who: 4, prf: true, silent: false }, IOp::Make { rk: true, prf: true }, IOp::Synced(0), IOp::Synced(1), IOp::Synced(4), IOp::Synced(3), IOp::Get { who: 2, prf: true, silent: false }];
+        let st = inst::sweep(&alphabet, ctx.tier.pick(3, 4), &[0, 1, 2], ctx.threads, "instance");
+        stats.count("instance_histories", st.evaluations);
+        stats.merge(st);
+    }
     let n = cs.len() as u64;
     let with_results = stats.outcomes.iter().filter(|(k, _)| k.ends_with(":results")).map(|(_, v)| *v).sum::<u64>();
     let mut run = Run::from_stats(
         "model_checking",
-        "complete product authenticator configuration {no hmac-secret, UV-only, with non-UV secret} x evaluation-at-creation x ceremony {register, authenticate} x userVerification {required, discouraged} x user verified {yes,no} x secrets of the target credential(3) x eval {absent, first, first+second} x evalByCredential {absent, empty, used id, other listed id, unlisted id, empty key, non-base64url key} x allow list {absent, empty, [A,B]} x variant {prf, prfAlreadyHashed, both} x input length set, through the Client, plus the CTAP2-level product with per-credential inputs; secrets are read back from the store and every result recomputed with hmac/sha2. Non-trivial = case that reaches the PRF logic (malformed-rejected, results, consent refusal)",
+        "complete product authenticator configuration {no hmac-secret, UV-only, with non-UV secret} x evaluation-at-creation x ceremony {register, authenticate} x userVerification {required, discouraged} x user verified {yes,no} x secrets of the target credential(3) x eval {absent, first, first+second} x evalByCredential {absent, empty, used id, other listed id, unlisted id, empty key, non-base64url key} x allow list {absent, empty, [A,B]} x variant {prf, prfAlreadyHashed, both} x input length set, through the Client, plus the CTAP2-level product with per-credential inputs; secrets are read back from the store and every result recomputed with hmac/sha2; plus the complete tree of histories (depth 3, thorough 4) over {PRF assertions with A / B / a credential made in the history / no allow list, plain assertion, registration with PRF, and four out-of-band changes of A's stored record: other secrets, presence-gated secret gone, no hmac-secret data, another key} on ONE long-lived authenticator against fresh authenticators over the same store (three store kinds). Non-trivial = case that reaches the PRF logic (malformed-rejected, results, consent refusal)",
         true,
         stats,
     );
@@ -506,6 +516,9 @@ pub fn run(ctx: &Ctx) -> Result<Run, String> {
 }
 
 pub fn replay(_ctx: &Ctx, case: &Value) -> Result<Vec<Finding>, String> {
+    if let Some(fs) = super::inst::replay(case, "instance") {
+        return Ok(fs);
+    }
     let c: Case = serde_json::from_value(case.clone()).map_err(|e| format!("bad C09 case: {e}"))?;
     Ok(eval(&c).0)
 }
